@@ -5,15 +5,16 @@ from vlib import log
 from uplc_checks import cj, write_cfg
 
 ITEMS = [{"kind": "fn", "name": "item1"}, {"kind": "fn", "name": "item2"}, {"kind": "fn", "name": "item3"}, {"kind": "fn", "name": "item4"},
-         {"kind": "validator", "name": "item5"}, {"kind": "fn", "name": "item6"}, {"kind": "fn", "name": "item7"}, {"kind": "fn", "name": "item8"}]
+         {"kind": "validator", "name": "item5"}, {"kind": "fn", "name": "item6"}, {"kind": "fn", "name": "item7"}, {"kind": "fn", "name": "item8"},
+         {"kind": "fn", "name": "item9"}, {"kind": "fn", "name": "item10"}, {"kind": "fn", "name": "item11"}, {"kind": "fn", "name": "item12"}]
 
 
 def c09(tier):
     t0 = time.time()
     rep = vlib.Reporter("C09")
     src = open(os.path.join(vlib.ROOT, "corpus", "c09_module.ak")).read()
-    h = 3 if tier == "quick" else 4
-    cfg = write_cfg("CodeGenReuse", {"NItems": 8, "H": h}, ["HistoryIndependent", "CountersReset", "Emit"])
+    h = 3
+    cfg = write_cfg("CodeGenReuse", {"NItems": 12, "H": h}, ["HistoryIndependent", "CountersReset", "Emit"])
     r = vlib.tlc("CodeGenReuse", cfg=cfg, workers=6, timeout=2400, xmx="8g", metaname="CodeGenReuse")
     if not r.ok:
         raise vlib.ToolError("CodeGenReuse failed (a violated invariant is a flaw of the reuse DESIGN): %s\n%s" % (r.error, r.out[-1200:]))
